@@ -848,6 +848,26 @@ def value_findings(case, result):
                 if call.get("twins"):
                     want_seq.append((ci, repr(float(i)), "float"))
             got_seq = [tuple(y) if isinstance(y, (list, tuple)) else y for y in rec["yields"]]
+            if not call["ordered"]:
+                # unordered: the chunks may arrive in any order, each chunk keeps its inner order
+                cs_ = call["chunk"]
+                want_chunks = sorted(tuple(want_seq[k:k + cs_]) for k in range(0, len(want_seq), cs_))
+                got_chunks = sorted(tuple(got_seq[k:k + cs_]) for k in range(0, len(got_seq), cs_))
+                if len(got_seq) == len(want_seq) and got_chunks != want_chunks:
+                    # chunks of equal length may interleave only at chunk borders; the last (shorter) chunk may sit anywhere:
+                    # fall back to matching every wanted chunk as a contiguous run
+                    rest = list(got_seq)
+                    ok = True
+                    for ch in sorted((tuple(want_seq[k:k + cs_]) for k in range(0, len(want_seq), cs_)), key=len, reverse=True):
+                        pos = next((k for k in range(0, len(rest) - len(ch) + 1) if tuple(rest[k:k + len(ch)]) == ch), None)
+                        if pos is None:
+                            ok = False
+                            break
+                        del rest[pos:pos + len(ch)]
+                    if ok and not rest:
+                        got_chunks = want_chunks
+                if got_chunks == want_chunks and len(got_seq) == len(want_seq):
+                    continue
             if got_seq != want_seq:
                 k = next((j for j, (a, b) in enumerate(zip(got_seq, want_seq)) if a != b), min(len(got_seq), len(want_seq)))
                 out.append(("wrong-value", f"call {ci} ({_cd(call)}, {'equal-but-different twin items' if call.get('twins') else ''}"
